@@ -14,21 +14,41 @@
    not exist yet do nothing, so the theorems quantify over ALL lists of operations.
    [snapshot h v] is the frozen tree Model/Render.v renders for variable v. *)
 From Jen Require Import Base.Bytes Model.Heap Model.Render Model.FileRender Gen.Clone.
-From Jen Require Import Proofs.HeapProofs.
+From Jen Require Import Spec.CloneShape Proofs.HeapProofs Proofs.CloneShapeProofs.
 Local Open Scope N_scope.
 
 (* ---- the obligation on the code (regenerated from /repo on every run) ----
    Statement is []Code; newStatement returns a fresh empty slice; Clone's body is exactly
    `return &Statement{s}`; in every method of Statement the slice header is only read
-   (range, index read, len, cap) or replaced by `*s = append( *s, ...)` on the receiver;
-   nothing else in package jen touches a Statement value.  Hence every builder call is an
-   OAppend, Clone is OClone with [clone_wrap], newStatement is ONew.  Changing Clone to copy
-   the header, or letting any function write an element in place, re-slice, or keep a
-   second header, makes this fail at coqc time. *)
+   (range, index read, len, cap, comparison with nil) or replaced by
+   `*s = append( *s, ...)` on the receiver; a COPY of the header (a local `items := *s`, the
+   parameter of a helper of package jen that receives `*s`) is only read as well, and so is
+   every variable or parameter it is handed on to ([copies_readonly] lists every copy with
+   the category of each of its mentions, Spec/CloneShape.v says which categories are
+   harmless and that the table is closed under handing on); nothing else in package jen
+   touches a Statement value.  Hence every builder call is an OAppend, Clone is OClone with
+   [clone_wrap], newStatement is ONew.  Changing Clone to copy the header, letting any
+   function write an element in place, append to a copy, store or return a copy, or take an
+   address, makes this fail at coqc time. *)
 Theorem C20_code_shape :
-  clone_body_is_wrap = true /\ forallb snd append_only_methods = true /\ other_writes = [] /\
+  clone_body_is_wrap = true /\ forallb snd append_only_methods = true /\
+  append_only_violations = [] /\ other_writes = [] /\
+  copies_closed_readonly copies_readonly = true /\
   statement_is_code_slice = true /\ new_statement_is_fresh = true.
 Proof. vm_compute. repeat split; reflexivity. Qed.
+
+(* What the table check means: every mention of every copy of a Statement's slice header
+   either only reads (range, index read, len, cap, nil comparison, source of append/copy,
+   reslice of itself) or hands the header on - possibly resliced or converted - to a local
+   variable or a parameter of a function of package jen that is in the table too ... *)
+Theorem C20_copies_table_sound : table_sound copies_readonly.
+Proof. exact (proj1 (copies_closed_readonly_iff copies_readonly) (proj1 (proj2 (proj2 (proj2 (proj2 C20_code_shape)))))). Qed.
+
+(* ... so no copy is ever appended to, written through, the destination of copy(), stored,
+   returned, captured, or has its address taken. *)
+Theorem C20_copies_never_write : forall r u,
+  In r copies_readonly -> In u (row_uses r) -> ~ writes_or_escapes (final_use u).
+Proof. exact (sound_table_never_writes copies_readonly (proj1 (proj2 (proj2 (proj2 (proj2 C20_code_shape)))))). Qed.
 
 (* ---- the invariant ----
    No two live statement variables' headers reference the same array.  It is established
@@ -182,6 +202,8 @@ Example C20_modified_clone_previous_is_the_statement :
 Proof. vm_compute. split; reflexivity. Qed.
 
 Print Assumptions C20_code_shape.
+Print Assumptions C20_copies_table_sound.
+Print Assumptions C20_copies_never_write.
 Print Assumptions C20_Inv_no_shared_array_step.
 Print Assumptions C20_Inv_no_shared_array.
 Print Assumptions C20_refines_lists.
